@@ -22,7 +22,33 @@ fn usize_off(op: &Value) -> usize {
     }
 }
 
+/// {"fam":"sdt","big":[{"via":"append_slice"|"sink_vec","n":N,"b":B},..]}: a table grown by very long uniform slices;
+/// the contents are not logged, only generic observations of them after every operation (length, byte sum, header).
+fn exec_big(run: u64, prog: &Value, out: &mut Out) {
+    let mut sdt = Sdt::new(*b"BIG_", 36, 1, [1, 2, 3, 4, 5, 6], [11, 12, 13, 14, 15, 16, 17, 18], 7);
+    let mut total: u64 = 36;
+    for op in list(prog, "big") {
+        let n = u64_of(get(op, "n")) as usize;
+        let b = u8_of(get(op, "b"));
+        let via = str_of(get(op, "via"));
+        let data = vec![b; n];
+        let res = guarded(|| match via {
+            "append_slice" => sdt.append_slice(&data),
+            _ => AmlSink::vec(&mut sdt, &data),
+        });
+        drop(data);
+        total += n as u64;
+        let sl = sdt.as_slice();
+        let tail_ok = sl.len() >= n && sl[sl.len() - n..].iter().all(|x| *x == b);
+        out.emit(json!({"ev":"big","run":run,"via":via,"n":n as u64,"b":b,"panic":res.is_err(),"len":sl.len() as u64,"lenfn":sdt.len() as u64,
+            "expect_len":total,"sum8":sum8(sl),"head":jbytes(&sl[..sl.len().min(36)]),"tail_is_fill":tail_ok}));
+    }
+}
+
 pub fn exec(run: u64, prog: &Value, out: &mut Out) {
+    if has(prog, "big") {
+        return exec_big(run, prog, out);
+    }
     let ops = list(prog, "ops");
     let first = &ops[0];
     assert_eq!(str_of(get(first, "op")), "new");
